@@ -616,7 +616,10 @@ def runCall (fl : Flags) (b : Block) (conv : Bool := false) : Res :=
   | .nilArg | .optErr _ =>
     let ok := runs.all (fun r => let t := resOf r; t = ["err", "nilarg"] ∨ t = ["err", "notfunc"])
     { conform := if ok then none else some "builder_error_expected", propNA := true,
-      props := [("C06", if runs.any (fun r => isPanicRes (resOf r)) then "FAIL:panic_on_malformed_option" else "ok")],
+      props := [("C06", if runs.any (fun r => isPanicRes (resOf r)) then "FAIL:panic_on_malformed_option" else "ok"),
+                -- C10: with a malformed option the call on the identity function fails, so Convert must fail (runs
+                -- alternate between the two)
+                ("C10", if conv ∧ runsX.any (fun r => !r.2.isEmpty ∧ isOkRes (resOf r.1)) then "FAIL:Convert_succeeds_although_the_call_on_the_identity_function_fails_on_a_malformed_option" else "ok")],
       stats := ["outcome=builderr"] }
   | .ok bld =>
   -- converter generators: invoked for every named value / typed output present once inputs and converters
@@ -661,6 +664,8 @@ def runCall (fl : Flags) (b : Block) (conv : Bool := false) : Res :=
     -- the exact-match predicate, which looks at the target's execution, does not apply
     let preds := runPredicates sc fx evs
     let preds := if conv && !rx.2.isEmpty then preds.filter (fun p => p.1 != "C03") else preds
+    -- the identity function of a conversion to `error` itself "fails" with the value it is given: no traced body failed
+    let preds := if conv then preds.map (fun p => if p.1 == "C04" && p.2 == some "error_reported_but_no_function_failed" then (p.1, none) else p) else preds
     (replayRun fl sc bld cgr target evs ((resOf evs).head? == some "crash") (conv && !rx.2.isEmpty), preds, evs))
   let conform := giAll.or (cd.or (outs.findSome? (fun o => o.1.conform)))
   -- aggregate predicates over runs
